@@ -28,6 +28,7 @@ def cheb2poly(ccoefs, kind="T"):
 
 
 def poly2cheb(pcoefs, kind="T"):
+    pcoefs = np.array(pcoefs, copy=True)
     ccoefs = np.zeros(len(pcoefs), dtype=pcoefs.dtype)
     cfunc = None
     if kind == "T":
